@@ -344,7 +344,7 @@ func (vr *variableResolver) resolve(ctx *ExecutionContext) (*Value, error) {
 					// Calling a field or key
 					switch current.Kind() {
 					case reflect.Struct:
-						current = current.FieldByName(part.s)
+						current = fieldByName(current, part.s)
 						if current.IsValid() && !current.CanInterface() {
 							// an unexported field is not accessible from a template
 							return AsValue(nil), nil
@@ -381,7 +381,7 @@ func (vr *variableResolver) resolve(ctx *ExecutionContext) (*Value, error) {
 						if err != nil {
 							return nil, err
 						}
-						current = current.FieldByName(sv.String())
+						current = fieldByName(current, sv.String())
 						if current.IsValid() && !current.CanInterface() {
 							// an unexported field is not accessible from a template
 							return AsValue(nil), nil
@@ -561,6 +561,26 @@ func (vr *variableResolver) resolve(ctx *ExecutionContext) (*Value, error) {
 	}
 
 	return &Value{val: current, safe: isSafe}, nil
+}
+
+// fieldByName is like reflect.Value.FieldByName, but yields the invalid value
+// instead of panicking when the field is promoted through an embedded pointer
+// that is nil.
+func fieldByName(v reflect.Value, name string) reflect.Value {
+	sf, ok := v.Type().FieldByName(name)
+	if !ok {
+		return reflect.Value{}
+	}
+	for _, i := range sf.Index {
+		if v.Kind() == reflect.Ptr {
+			if v.IsNil() {
+				return reflect.Value{}
+			}
+			v = v.Elem()
+		}
+		v = v.Field(i)
+	}
+	return v
 }
 
 func (vr *variableResolver) Evaluate(ctx *ExecutionContext) (*Value, *Error) {
